@@ -215,4 +215,49 @@ theorem scaleLine_noNL (k : Nat) (l : Str) (h : ∀ ch ∈ l, ch ≠ '\n') : ∀
   · rw [(List.mem_replicate.1 h1).2]; decide
   · exact h ch (List.mem_of_mem_drop h1)
 
+theorem step_plainStmt (st : St) (l : Str) (hB : st.atBoundary = true) (hml : st.mlComment = false) (hp : plainStmt (strip l) = true) :
+    step st l = .ok ({ st with comment := none, pending := none },
+      [{ text := firstPart (strip l), indentation := lead l, comment := st.comment }]) := by
+  simp only [St.atBoundary, Bool.and_eq_true, Option.isNone_iff_eq_none] at hB
+  simp only [plainStmt, Bool.and_eq_true, Bool.not_eq_true', List.isEmpty_eq_false_iff] at hp
+  obtain ⟨⟨⟨⟨h1, h2⟩, h3⟩, h4⟩, h5⟩ := hp
+  unfold step stepV
+  simp [hB.1, hB.2, h2, h1, h3, h4, hml, settle, h5]
+
+theorem step_hashLine (st : St) (l c : Str) (hB : st.atBoundary = true) (hl : strip l = '#' :: c) :
+    step st l = .ok ({ st with comment := addComment st.comment (strip c) }, []) := by
+  simp only [St.atBoundary, Bool.and_eq_true, Option.isNone_iff_eq_none] at hB
+  unfold step stepV
+  simp [hB.1, hB.2, hl, isOpener, startsWith, q1, q3]
+
+theorem run_blanks (st : St) (blanks : List Str) (hb : ∀ b ∈ blanks, strip b = []) (hB : st.atBoundary = true) (X : List Str) :
+    run st (blanks ++ X) = run st X := by
+  induction blanks with
+  | nil => rfl
+  | cons b bs ih =>
+    simp only [List.cons_append, run, step_blank st b (hb b (by simp)) hB]
+    rw [ih (fun x hx => hb x (by simp [hx]))]
+    cases run st X <;> simp
+
+/-- Positive specification of what the comment above a statement means: a `# c` line, then any number of blank lines (any `str.isspace`
+    characters), then an ordinary statement - the statement's record carries the comment `c` (stripped), and the comment is used up.
+    (`$v = ...` below a comment gets the comment as `instructions`; a bot step gets it as generation instructions.) -/
+theorem numbered_comment_attaches (pre post blanks : List Str) (cl c stmt : Str)
+    (st' : St) (out : List Rec) (hpre : runPre St.init pre = .ok (st', out))
+    (hB : st'.atBoundary = true) (hml : st'.mlComment = false) (hc0 : st'.comment = none)
+    (hcl : strip cl = '#' :: c) (hb : ∀ b ∈ blanks, strip b = []) (hs : plainStmt (strip stmt) = true) :
+    numbered (pre ++ cl :: (blanks ++ stmt :: post)) =
+      (run { st' with comment := none, pending := none } post).map fun rest =>
+        out ++ { text := firstPart (strip stmt), indentation := lead stmt, comment := some (strip c) } :: rest := by
+  unfold numbered
+  rw [run_append, hpre]
+  have hB1 : ({ st' with comment := addComment st'.comment (strip c) } : St).atBoundary = true := by
+    simpa [St.atBoundary] using hB
+  have hstep := step_plainStmt { st' with comment := addComment st'.comment (strip c) } stmt hB1 hml hs
+  simp only [run, step_hashLine st' cl c hB hcl]
+  rw [run_blanks _ blanks hb hB1]
+  simp only [run, hstep]
+  simp only [hc0, addComment]
+  cases run { st' with comment := none, pending := none } post <;> simp [Except.map]
+
 end NemoVerif.NumberedLines
